@@ -24,7 +24,9 @@ CFGS = [gen.cfg_key(c) for c in (
     {"preset": "js-default", "on": [], "off": [], "opts": []},
     {"preset": "js-default", "on": [], "off": [], "opts": [["html", "T"], ["typographer", "T"]]},
 )]
-CTX = {"atx": ("# ", ""), "list": ("- ", ""), "quote": ("> ", ""), "cell": ("| h |\n|---|\n| ", " |")}
+CTX = {"atx": ("# ", ""), "list": ("- ", ""), "quote": ("> ", ""), "cell": ("| h |\n|---|\n| ", " |"),
+       # the text twice in one document (two cells / two items): what one inline block leaves behind must not reach the next
+       "cell2": None, "list2": None}
 
 
 def inline_html(md, toks, env):
@@ -51,8 +53,13 @@ def law_embed(job):
     md = A.md_for(cfgkey)
     e1, e2 = {}, {}
     bdoc = t + REFDEF
-    pre, post = CTX[ctx]
-    ddoc = pre + t + post + REFDEF
+    if ctx == "cell2":
+        ddoc = "| " + t + " |\n|---|\n| " + t + " |" + REFDEF
+    elif ctx == "list2":
+        ddoc = "- " + t + "\n- " + t + REFDEF
+    else:
+        pre, post = CTX[ctx]
+        ddoc = pre + t + post + REFDEF
     btoks = md.parse(bdoc, e1)
     dtoks = md.parse(ddoc, e2)
     base = {"lines": [], "toks": [A.tok(x) for x in btoks], "refs": [], "dups": [], "ih": inline_html(md, btoks, e1)}
@@ -129,6 +136,7 @@ def run(tier, rep):
                    if "\n" not in u + m + c and not u.startswith((">", "- ", "1.", "#", "  "))} |
                   {"x " + "[" * n + "a" + "]" * n + "(u)" for n in sizes})
     one += deep
+    one += ['x" "y', "a' 'b", '"a', 'a 6" pipe', "it's \"", "'", 'q"', "(c) \"x"]
     # Unicode look-alikes inside one-line texts (a line separator, form feed, NEL, ... are ordinary characters of
     # the text for Markdown: the text stays one line in every block context)
     tw = [t for t in gen.twins(gen.sample([d for d in l2 if d.strip(" \t")], 4000 if q else 60000, C.SEED + 9), C.SEED, per_doc=2)
